@@ -134,6 +134,11 @@ pub fn bursts() -> Vec<Burst> {
     v.push(mk("names-vs-last-part", base_cfg(), 3, users3(), vec![], vec![(0, "JOIN #v")], vec![(0, vec!["PART #v"]), (1, vec!["NAMES"])]));
     // two operators take each other's rank away at the same time: one of them is too late
     v.push(mk("deop-vs-deop", base_cfg(), 3, users3(), vec![], vec![(0, "JOIN #c"), (1, "JOIN #c"), (2, "JOIN #c"), (0, "MODE #c +o bob"), (0, "MODE #c +o carol")], vec![(1, vec!["MODE #c -o carol"]), (2, vec!["MODE #c -o bob"])]));
+    // INVITE and the invited user's own JOIN on a channel that anybody may enter: invited and
+    // then admitted (the invitation is used up), or already a member (443) - never a member
+    // that still holds an invitation for later
+    v.push(mk("invite-vs-join-open", base_cfg(), 3, users3(), vec![], vec![(0, "JOIN #c")], vec![(0, vec!["INVITE bob #c"]), (1, vec!["JOIN #c"])]));
+    v.push(mk("invite-vs-part", base_cfg(), 3, users3(), vec![], vec![(0, "JOIN #c"), (1, "JOIN #c")], vec![(0, vec!["INVITE bob #c"]), (1, vec!["PART #c"])]));
     v.push(mk("quit-vs-invite", base_cfg(), 3, users3(), vec![], vec![(0, "JOIN #c"), (1, "JOIN #c")], vec![(0, vec!["INVITE carol #c"]), (2, vec!["QUIT"])]));
     v
 }
